@@ -40,14 +40,14 @@ theorem buffer_transparent (items : List Item) (cap : Nat) (s' : Sink)
     (h : Sink.run items (Sink.empty cap) = some s') :
     s'.flush.chunks.flatten = unitsOf items ∧
     ∃ groups : List (List Item), groups.flatten = items ∧ s'.flush.chunks = groups.map unitsOf := by
-  have he : (SinkI.mk cap [] []).erase = Sink.empty cap := rfl
+  have he : (SinkI.mk cap [] [] true).erase = Sink.empty cap := rfl
   rw [← he, ← SinkI.erase_run] at h
-  cases hr : SinkI.run items ⟨cap, [], []⟩ with
+  cases hr : SinkI.run items ⟨cap, [], [], true⟩ with
   | none => simp [hr] at h
   | some si =>
     simp only [hr, Option.map_some, Option.some.injEq] at h
     subst h
-    obtain ⟨hall, _⟩ := SinkI.run_all items _ si hr
+    obtain ⟨hall, _⟩ := SinkI.run_all items _ si rfl hr
     have hg : si.flush.chunks.flatten = items := by
       have : si.flush.chunks.flatten = si.all := by simp [SinkI.flush, SinkI.all]
       rw [this, hall]; simp [SinkI.all]
@@ -57,7 +57,7 @@ theorem buffer_transparent (items : List Item) (cap : Nat) (s' : Sink)
     rw [hc, ← hg, unitsOf_flatten]
 
 example : Sink.run [.one 1, .atom [2, 3], .one 4, .bulk [5, 6, 7, 8], .one 9] (Sink.empty 3)
-    = some ⟨3, [[1, 2, 3], [4], [5, 6, 7, 8]], [9]⟩ := by decide
+    = some ⟨3, [[1, 2, 3], [4], [5, 6, 7, 8]], [9], true⟩ := by decide
 
 /-- **buffer_in_bounds.** With a non-zero capacity and every atomic store no longer than the capacity
 (the serializer's atoms are 2–4 UTF-8 bytes, a surrogate pair, or `&#N;` with N ≤ 1114111: at most
@@ -66,9 +66,9 @@ position never exceeds the capacity. -/
 theorem buffer_in_bounds (items : List Item) (cap : Nat) (hcap : 0 < cap)
     (hatom : ∀ us, Item.atom us ∈ items → us.length ≤ cap) :
     ∃ s', Sink.run items (Sink.empty cap) = some s' ∧ s'.buf.length ≤ s'.cap := by
-  obtain ⟨si, hr, hi⟩ := SinkI.run_ok items ⟨cap, [], []⟩ (by simp [SinkI.Inv, unitsOf]) hcap hatom
+  obtain ⟨si, hr, hi⟩ := SinkI.run_ok items ⟨cap, [], [], true⟩ (by simp [SinkI.Inv, unitsOf]) hcap hatom
   refine ⟨si.erase, ?_, hi⟩
-  have he : (SinkI.mk cap [] []).erase = Sink.empty cap := rfl
+  have he : (SinkI.mk cap [] [] true).erase = Sink.empty cap := rfl
   rw [← he, ← SinkI.erase_run, hr]; rfl
 
 example : (0 : Nat) < 512 ∧ ∀ us, Item.atom us ∈ [Item.one 60, .atom [0xC3, 0xA9], .bulk [1, 2]] → us.length ≤ 512 := by
@@ -80,7 +80,9 @@ concatenate to the writer's chunks, and each is a concatenation of whole writer 
 with `buffer_transparent`: no transcoder call sees a split surrogate pair. -/
 theorem stream_transparent (cap : Nat) (wc sc : List (List Nat)) (h : streamChunks cap wc = some sc) :
     sc.flatten = wc.flatten ∧ ∃ groups : List (List (List Nat)), groups.flatten = wc ∧ sc = groups.map List.flatten := by
-  unfold streamChunks at h
+  unfold streamChunks streamChunksF at h
+  have he : Sink.emptyF cap true = Sink.empty cap := rfl
+  rw [he] at h
   cases hr : Sink.run (wc.map Item.bulk) (Sink.empty cap) with
   | none => simp [hr] at h
   | some s' =>
@@ -100,6 +102,43 @@ theorem stream_transparent (cap : Nat) (wc sc : List (List Nat)) (h : streamChun
       apply List.map_congr_left
       intro g _
       simp [unitsOf, List.flatMap_def]
+
+/-- the flags the translator read from the bulk `write(chars, n)` of `XalanUTF8Writer` / `XalanUTF16Writer`
+(`flushBuffer()` in front of `m_writer.write(theChars, 0, theLength)`) and from `XalanOutputStream::write`
+(direct write only with an empty buffer) -/
+theorem generated_bulk_flushes : bulkFlushUTF8 = true ∧ bulkFlushUTF16 = true ∧ bulkFlushStream = true := by decide
+
+/-- **output_is_concatenation_of_writes** (refinement of both buffer layers, as the working tree has them, to the
+unbuffered specification).  For every writer, every sequence of write calls of every kind — single units, atomic
+multi-unit stores, bulk `write(chars, n)` of *every* length (fits / needs a flush, then fits / longer than the buffer:
+flush + direct write), `flushIfFull` — and the final `flushBuffer`: the units handed to the transcoder (`sc`, through the
+writer's 512-entry buffer and `XalanOutputStream`'s buffer, both with the bulk-write shape the translator read) are
+exactly the units of all write calls in call order; no call's units overtake an earlier call's. -/
+theorem output_is_concatenation_of_writes (k : WK) (items : List Item) (wc sc : List (List Nat))
+    (h1 : writerChunks k items = .ok wc) (h2 : streamChunksF streamBufferSize bulkFlushStream wc = some sc) :
+    wc.flatten = unitsOf items ∧ sc.flatten = unitsOf items := by
+  obtain ⟨g8, g16, gs⟩ := generated_bulk_flushes
+  have hk : bulkFlush k = true := by cases k <;> simp [bulkFlush, g8, g16]
+  have hw : wc.flatten = unitsOf items := by
+    unfold writerChunks at h1
+    rw [hk] at h1
+    have he : Sink.emptyF (bufferSize k) true = Sink.empty (bufferSize k) := rfl
+    rw [he] at h1
+    cases hr : Sink.run items (Sink.empty (bufferSize k)) with
+    | none => simp [hr] at h1
+    | some s' =>
+      simp only [hr, Except.ok.injEq] at h1
+      subst h1
+      exact (buffer_transparent items _ s' hr).1
+  rw [gs] at h2
+  exact ⟨hw, by rw [(stream_transparent _ wc sc h2).1, hw]⟩
+
+/-- why the flush matters: without it (`fbd = false`) a run longer than the buffer is delivered *ahead* of what is
+still buffered — one unit, then a 4-unit run, capacity 3: the run comes out first -/
+theorem bulk_without_flush_counterexample :
+    (Sink.run [.one 1, .bulk [2, 3, 4, 5]] (Sink.emptyF 3 false)).map (fun s => s.flush.chunks) = some [[2, 3, 4, 5], [1]] ∧
+    (Sink.run [.one 1, .bulk [2, 3, 4, 5]] (Sink.emptyF 3 true)).map (fun s => s.flush.chunks) = some [[1], [2, 3, 4, 5], []] := by
+  decide
 
 /-! ## encodings -/
 
